@@ -26,6 +26,22 @@ def key2(p):
     return int(k)
 
 
+def pack(e):
+    """one log entry -> one integer, the same packing as Model/DispatchOrderObs.v pack"""
+    t = e[0]
+    a = b = c = 0
+    if t == 0:
+        a, b, c = e[1], e[2], e[3] + 1000
+    elif t == 1:
+        a, b, c = e[1], e[2], e[3]
+    elif t in (2, 3):
+        a, b = e[1], e[2]
+    elif t == 6:
+        a = e[1]
+    assert 0 <= a < 1024 and 0 <= b < 1024 and 0 <= c < 1024, e
+    return t + 8 * (a + 1024 * (b + 1024 * c))
+
+
 class Ctx:
     def __init__(self):
         self.log = []
@@ -150,7 +166,7 @@ class C02(Prop):
     id = 'C02'
     props_file = 'Props/C02.v'
     imports = ['Model.DispatchOrder', 'Model.DispatchOrderObs']
-    quick_n = 480
+    quick_n = 260
     thorough_n = 9000
     rule = ('programs over <= 8 event names; handlers (0-3 per name, on two components) with priorities from '
             '{-2,-1,-0.5,0,0.5,1,3, 1.0,-0.0,True,False,...}, bodies of <= 4 actions fire(name,priority)/event.stop()/flush(), '
@@ -212,7 +228,7 @@ class C02(Prop):
                     prog.append(['cf', rng.randint(0, nn - 1), rng.choice(pr)])
             prog += [['x']] * (nn + 2)
             case = {'k': kind, 'handlers': handlers, 'prog': prog}
-            if est_events(case) <= (160 if tier == "thorough" else 70):
+            if est_events(case) <= (160 if tier == "thorough" else 45):
                 return case
 
     def generate(self, rng, n, tier):
@@ -266,13 +282,13 @@ class C02(Prop):
         out = []
         for a in body:
             if a[0] in ('f', 'cf'):
-                out.append('AFire %d%%nat (%d)' % (a[1], key2(a[2])))
+                out.append('F %d (%d)' % (a[1], key2(a[2])))
             elif a[0] == 'x':
-                out.append('AFlush')
+                out.append('X')
             elif a[0] == 's':
-                out.append('AStop')
+                out.append('P')
             elif a[0] == 'reg':
-                out.append('AFire %d%%nat (0)' % REG_NAME)
+                out.append('F %d 0' % REG_NAME)
         return '[%s]' % '; '.join(out)
 
     def model_term(self, c):
@@ -287,14 +303,14 @@ class C02(Prop):
             byid = {h[0]: h for h in hs}
             ids = [i for i in order.get(name, []) if i in byid]
             ids += [h[0] for h in hs if h[0] not in ids]      # (handlers the implementation did not report)
-            hl = '; '.join('mkh %d%%nat (%d) %s' % (i, key2(byid[i][1]), self._acts(byid[i][3])) for i in ids)
-            rows.append('(%d%%nat, [%s])' % (name, hl))
+            hl = '; '.join('H %d (%d) %s' % (i, key2(byid[i][1]), self._acts(byid[i][3])) for i in ids)
+            rows.append('R %d [%s]' % (name, hl))
         return 'obs_run [%s] %d%%nat %s' % ('; '.join(rows), est_steps(c) + 100, self._acts(c['prog'], True))
 
     def obs_for_model(self, c, obs):
         if isinstance(obs, dict) and '__crash__' in obs:
             return [-999]
-        return [obs['log'], obs['final']]
+        return [[pack(e) for e in obs['log'] if e[0] not in (3, 5)], obs['final']]
 
     # ------------------------------------------------------------------ oracle: the property read on the log
     def oracle(self, c, obs):
@@ -344,9 +360,12 @@ class C02(Prop):
                 if eid not in fired:
                     return 'event %d dispatched but never fired' % eid
                 if not pending or pending[0] != eid:
-                    if eid in queued:
+                    if eid in queued and pending:
                         return ('event %d, fired after the current pass began, was dispatched before %r that were queued '
                                 'when the pass began' % (eid, pending))
+                    if eid in queued:
+                        return ('event %d, fired after the current pass began, was dispatched by that same pass '
+                                '(no new flush pass had begun)' % eid)
                     return 'event %d dispatched out of order: the pass requires %r next (priority, then fire order)' % (eid, pending[:3])
                 pending.pop(0)
                 dispatched.append(eid)
